@@ -20,3 +20,19 @@ package main
 //@   requires !isnil(d)
 //@   ensures committed: d.done
 //@   ensures frame: d.cache == old(d.cache) && d.infile == old(d.infile) && d.outfile == old(d.outfile) && d.tmpin == old(d.tmpin)
+
+// TryCache wiring: the root digest is taken after a Reset from exactly one copy of the whole
+// input (read from its start), the data digest after a Reset from exactly one Write of the
+// payload; the input is rewound before the entry is looked up or created and before the
+// command reads it; the entry is looked up and created with (root, data) in that order.
+// Ghost integers (maintained by the external calls): hs = fed to the hash since its last Reset
+// (a copy counts 100, a Write 1), copyfrom = file position when that copy started, fpos =
+// position of the last Seek, sumcount = number of digests taken so far.
+//@ func (d *ioDelegate) TryCache(h hash.Hash, data []byte) (ok bool, err error)
+//@   prop C14
+//@   requires !isnil(d) && !isnil(h) && !isnil(d.infile) && !isnil(d.outfile)
+//@   requires ghostint("fpos") == 0 && ghostint("sumcount") == 0 && ghostint("removed") == 0 && ghostint("fwcount") == 0 && isnil(d.cache)
+//@   callpre Sum(b): (ghostint("sumcount") == 0 && ghostint("hs") == 100 && ghostint("copyfrom") == 0) || (ghostint("sumcount") == 1 && ghostint("hs") == 1)
+//@   callpre Open(path, hh, rs, ds): ghostint("sumcount") == 2 && ghostint("fpos") == 0 && sameslice(ds, lastSum) && !sameslice(rs, lastSum)
+//@   callpre CreateLevel(path, hh, rs, ds, lv): ghostint("sumcount") == 2 && ghostint("fpos") == 0 && sameslice(ds, lastSum) && !sameslice(rs, lastSum)
+//@   ensures miss_rewound: !ok && isnil(err) ==> ghostint("fpos") == 0
